@@ -145,6 +145,47 @@ func (c *Ctx) errflowFunc(f *ssa.Function, exc map[string]string) {
 				}
 			}
 		}
+		// R-tolerated: a pointer result used where the call's error may still be non-nil (the error
+		// test lets some errors through on purpose) and the pointer itself has not been tested: the
+		// callee returns a nil pointer together with the tolerated error.
+		for _, o := range others {
+			if _, isPtr := o.Type().Underlying().(*types.Pointer); !isPtr {
+				continue
+			}
+			for _, u := range realRefs(o) {
+				switch x := u.(type) {
+				case *ssa.Return, *ssa.Phi, *ssa.Store:
+					continue
+				case *ssa.BinOp:
+					if (x.Op == token.EQL || x.Op == token.NEQ) && (isNilConst(x.X) || isNilConst(x.Y)) {
+						continue
+					}
+				}
+				ub := u.Block()
+				if classifyErr(f, errVal, ub, 0) == errNil {
+					continue
+				}
+				// was the error tested at all on the way here?
+				tested := false
+				for _, r := range realRefs(errVal) {
+					if bo, ok := r.(*ssa.BinOp); ok && (bo.Op == token.EQL || bo.Op == token.NEQ) && bo.Block().Dominates(ub) {
+						tested = true
+					}
+				}
+				if !tested {
+					continue
+				}
+				guarded := false
+				for _, ft := range factsAt(f, ub) {
+					if isN, eq := nilTest(ft.Cond, o); isN && eq != ft.Truth {
+						guarded = true
+					}
+				}
+				k := mk("R-tolerated", cl)
+				report("E2.R-tolerated", k, u.Pos(), "pointer result is nil-tested before use on the path where the error is tolerated", !guarded,
+					fmt.Sprintf("%s: the pointer returned by %s is used at %s where its error may be non-nil (some errors are let through) and the pointer has not been compared with nil: a tolerated failure hands a nil pointer to the next step", fnName(f), shortQ(q), c.rel(u.Pos())))
+			}
+		}
 	})
 	// R-swallow / R-stale on returns
 	if f.Signature.Results().Len() == 0 {
